@@ -6,4 +6,9 @@ export GOCACHE="$VERIF_ROOT/.cache/go-build"
 export CGO_ENABLED=0
 export CI=true
 unset GITHUB_TOKEN GITHUB_OUTPUT
-mkdir -p "$VERIF_ROOT/.build" "$VERIF_ROOT/.cache"
+# one build directory per source tree, so that checks against a scratch copy never disturb the real ones
+if [ -z "${VERIF_BUILD:-}" ]; then
+  if [ "$VERIF_REPO" = /repo ]; then VERIF_BUILD="$VERIF_ROOT/.build"; else VERIF_BUILD="$VERIF_ROOT/.build-alt/$(echo "$VERIF_REPO" | md5sum | cut -c1-10)"; fi
+fi
+export VERIF_BUILD
+mkdir -p "$VERIF_BUILD" "$VERIF_ROOT/.cache"
